@@ -134,7 +134,7 @@ theorem pushMapEntries_plain (ext : Ext) : ∀ (es : SEntries) (offs : List Int)
 
 /-- `serialize_map` on every builder family -/
 theorem mapLike_bl {ext : Ext} [ExtPlain ext] {es : SEntries} (hpe : EntriesBl ext es) (hpm : MapEntriesBl ext es)
-    {b : B} {path : String} {dt n md} (hg : Good b dt n md) (ha : At path dt n md b)
+    {b : B} {path : String} {dt n md} (hg : GoodH b dt n md) (ha : At path dt n md b)
     (hcap : vsizee ext es + 1 ≤ room b) :
     Bl (mapS ext path dt es) (ctx b.ann (mapWith ext es b)) := by
   cases b with
@@ -160,13 +160,13 @@ theorem mapLike_bl {ext : Ext} [ExtPlain ext] {es : SEntries} (hpe : EntriesBl e
     obtain ⟨_, ename, kn, kdt, knl, kmd, vn, vdt, vnl, vmd, rest, en, emd, sorted, he, hsk, hsv⟩ := hsh
     subst he
     have hw := hg.wf
-    simp only [WFB] at hw
-    have hsafe := hg.safe
-    simp only [Safe] at hsafe
+    simp only [WFH] at hw
+    have hsafe := hg.nd
+    simp only [NoDictKey] at hsafe
     have ht := hg.tot
     simp only [total, totalF, Bool.and_eq_true] at ht
-    have hgk : Good ks kdt knl kmd := ⟨hw.2.2.2.1, hsafe.1, hsk, ht.1⟩
-    have hgv : Good vs vdt vnl vmd := ⟨hw.2.2.2.2, hsafe.2, hsv, ht.2⟩
+    have hgk : GoodH ks kdt knl kmd := ⟨hw.2.2.2.1, hsafe.1, hsk, ht.1⟩
+    have hgv : GoodH vs vdt vnl vmd := ⟨hw.2.2.2.2, hsafe.2, hsv, ht.2⟩
     obtain ⟨hak, hav⟩ := ha.map_kids
     have hlast := hw.1.2.1
     have hln : lastNat offs = (dec ks).length := by simp [lastNat_of_getLast hlast]
